@@ -142,10 +142,15 @@ func drainCache(a *memory.Allocator, pageSize uintptr, m *mapped) int {
 	}
 }
 
+// awaitBound bounds every "eventually" wait of the harness (things that take
+// microseconds on an idle machine).
+const awaitBound = 60 * time.Second
+
 // waitQuiet waits until no goroutine other than the baseline ones is alive (the
 // allocator's refill goroutine has finished). Generous bound, never a verdict.
 func waitQuiet(base int) bool {
-	for i := 0; i < 600000; i++ {
+	t0 := time.Now()
+	for i := 0; time.Since(t0) < awaitBound; i++ {
 		if runtime.NumGoroutine() <= base {
 			return true
 		}
